@@ -11,7 +11,8 @@ def R(bin, profile="release", **kw):
 
 def c15(tier):
     return [
-        R("mbuilder", args={"mode": "words"}),
+        # depth 6 is the first length at which a valid specification with two parameter-dependent functions exists
+        R("mbuilder", args={"mode": "words", "depth": 6} if tier == "thorough" else {"mode": "words"}),
         R("mbuilder", args={"mode": "edits"}),
     ]
 
@@ -33,7 +34,9 @@ def c05(tier):
 
 
 def c04(tier):
-    return [R("fitenv"), R("fitgrid")]
+    # the scripted model of fitenv is a pure function of alpha; models whose answer changes between two evaluations
+    # at the same alpha (a fault at the optimizer's final restoring evaluation) come from the fault sweep
+    return [R("fitenv"), R("fitgrid"), R("faults", args={"phases": "fit"})]
 
 
 def c12(tier):
